@@ -607,7 +607,9 @@ func (a *Array) PopIterate(fn ArrayPopIterationFunc) error {
 		}
 	}
 
-	return nil
+	// If this array is a child, it notifies parent by invoking callback because
+	// this array is changed by removing all elements.
+	return a.notifyParentIfNeeded()
 }
 
 // Slab operations (split root, promote child slab to root)
